@@ -173,8 +173,22 @@ def expand_p1_noise(kind, arg, seed):
 def p1_oracle(case) -> Info:
     nkind, narg, seed, n, cuts = case
     cuts = tuple(cuts)
+    if seed % 5 == 0 and cuts[0] in ("none", "single"):
+        cuts = ("fixed", 8190 + narg % 16, narg % 8191)  # chunk boundaries that fall inside / next to the end line of a ~8 KiB readout
     noise = expand_p1_noise(nkind, narg, seed)
     readouts = resync.clean_readouts(n, seed)
+    if seed % 5 == 0 and n >= 2:
+        # one well-formed readout whose length is just below the reader's 8191-byte limit
+        rnd = random.Random(seed)
+        head = b"/ABC5big\r\n"
+        target = rnd.choice([8150, 8186, 8188, 8191]) - len(head)
+        lines = bytearray()
+        while len(lines) + 31 <= target:
+            lines += b"1-0:1.8.0(00001605.055*kWh)\r\n"[: 29] + b"\r\n" if False else b"1-0:1.8.0(00001605.055*kWh)\r\n"
+        pad = target - len(lines)
+        if pad >= 14:
+            lines += b"0-0:96.1.9(" + b"7" * (pad - 14) + b")\r\n"
+        readouts[1] = GP.add_end(head + bytes(lines), rnd.choice(["upper", "none"]))
     stream = noise + b"".join(readouts)
     reader = dlde.ModeDReader()
     bystander = dlde.ModeDReader()  # another instance in use at the same time
